@@ -74,6 +74,26 @@ func runC03(c *Ctx) error {
 	if err := d18Probe(c); err != nil {
 		return err
 	}
+	// 64-bit payload lengths whose most significant bit is set (RFC 6455 5.2: it MUST be 0), small low bits, the
+	// announced bytes present: a single frame, and the same as the final fragment of a message
+	for _, server := range []bool{true, false} {
+		for _, low := range []uint64{0, 5, 125} {
+			for _, inFragment := range []bool{false, true} {
+				var stream []byte
+				op := 2
+				if inFragment {
+					stream = append(stream, dataFrame(2, false, server, []byte("frag"))...)
+					op = 0
+				}
+				stream = append(stream, encodeFrame(frameSpec{Fin: true, Opcode: op, Masked: server, Key: [4]byte{6, 3, 6, 3}, Payload: bytes.Repeat([]byte("h"), int(low)), UseU64: true, DeclU64: 1<<63 | low, DeclLen: -1})...)
+				stream = append(stream, dataFrame(9, true, server, []byte("after"))...)
+				spec := connSpec{Server: server, RLimit: 1 << 20}
+				if err := inboundOne(c, spec, stream, 0, fmt.Sprintf("len64 top bit set low=%d in-fragment=%v server=%v", low, inFragment, server), "C03"); err != nil {
+					return err
+				}
+			}
+		}
+	}
 	// (i) the sweep
 	lenClasses := []struct {
 		n    int
